@@ -21,6 +21,11 @@ legs
              its connect() is terminated or the RF link breaks.  The server
              application sees the complete message exactly once or nothing,
              never the first records as if they were the message
+  concurrent several servers (SNEP, a second SNEP service, handover) and
+             several clients on one link at the same time, on both devices:
+             connection set-ups and transfers overlap, PDUs of different
+             data link connections share aggregated frames; every message
+             reaches the application it was sent to once and intact
 """
 from hypothesis import strategies as st
 
@@ -757,6 +762,367 @@ def run_cut(case, ctx):
               "frames_on_air": len(P.air.log)})
 
 
+# ------------------------------------------------------ leg: concurrent
+SNEP2 = "urn:nfc:xsn:verif.example:snep2"
+SVC_NAME = {"snep": "urn:nfc:sn:snep", "snep2": SNEP2,
+            "handover": "urn:nfc:sn:handover"}
+SETUP = ("CONNECT", "CC")
+PTYPES = {0: "SYMM", 1: "PAX", 2: "AGF", 3: "UI", 4: "CONNECT", 5: "DISC",
+          6: "CC", 7: "DM", 8: "FRMR", 9: "SNL", 10: "DPS", 12: "I",
+          13: "RR", 14: "RNR"}
+DLC_PDUS = ("CC", "DISC", "DM", "FRMR", "I", "RR", "RNR")
+
+
+@st.composite
+def concurrent_case(draw):
+    """1..4 services spread over the two devices (default SNEP server, a
+    second SNEP server under its own service name, handover server - each at
+    most once per device), 2..4 client threads on the respective other
+    device, at most two per service (the servers listen with a backlog of
+    two), each starting after its own delay and doing one or two
+    operations"""
+    lk = draw(link())
+    # aggregation is what packs PDUs of several connections into one frame:
+    # on in three of four cases per side, off in the rest
+    lk["agf_i"] = draw(st.sampled_from([True, True, True, False]))
+    lk["agf_t"] = draw(st.sampled_from([True, True, True, False]))
+    lk["choices"] = draw(st.lists(st.integers(0, 5), max_size=40))
+    combos = [(s, t) for s in ("i", "t")
+              for t in ("snep", "snep2", "handover")]
+    picked = draw(st.lists(st.sampled_from(combos), min_size=1, max_size=4,
+                           unique=True))
+    services = []
+    for side, typ in picked:
+        services.append({
+            "side": side, "type": typ,
+            "miu": draw(st.one_of(st.sampled_from([128, 128, 248, 1984]),
+                                  st.integers(128, 2175))),
+            "rw": draw(st.integers(1, 15))})
+    slots = [k for k in range(len(services)) for _ in range(2)]
+    ncli = draw(st.integers(2, min(4, len(slots))))
+    order = draw(st.permutations(slots))[:ncli]
+    delay = st.one_of(st.sampled_from([0, 0, 0, 1, 2, 3, 5, 8]),
+                      st.integers(0, 60))
+    clients = []
+    for k in order:
+        svc = services[k]
+        eff = min(svc["miu"], lk["miu_" + svc["side"]])
+        size = st.one_of(around(eff, 3), around(128, 4),
+                         st.integers(7, 1500)).map(lambda n: max(7, n))
+        ops = []
+        for _ in range(draw(st.integers(1, 2))):
+            if svc["type"] == "handover":
+                ops.append({"op": "handover",
+                            "size": draw(st.one_of(around(eff, 3),
+                                                   around(128, 4),
+                                                   st.integers(0, 1500))),
+                            "rsize": draw(st.one_of(around(128, 4),
+                                                    st.integers(0, 1500))),
+                            "gap": draw(delay)})
+            else:
+                ops.append({"op": draw(st.sampled_from(["put", "put",
+                                                        "get"])),
+                            "size": draw(size),
+                            "rsize": draw(st.one_of(
+                                around(128, 4), st.integers(7, 1500)).map(
+                                    lambda n: max(7, n))),
+                            "gap": draw(delay)})
+        clients.append({
+            "svc": k, "delay": draw(delay), "ops": ops,
+            "explicit": svc["type"] == "snep2" or draw(st.booleans()),
+            "miu": draw(st.sampled_from([128, 128, 248, 1000])),
+            "rw": draw(st.integers(1, 6))})
+    return dict(lk, kind="concurrent", services=services, clients=clients,
+                closer=draw(st.sampled_from(["i", "t"])),
+                seed=draw(st.integers(0, 255)))
+
+
+def llc_frames(air_log):
+    """independent reading of the air: the LLC frames (one per NFC-DEP
+    information transfer, chained frames put together) as
+    (direction, [(name, dsap, ssap), ...]) - the list has more than one
+    entry for an aggregated frame"""
+    from vlib import deppair as dp
+    buf = {"I>T": b"", "T>I": b""}
+    out = []
+    for e in air_log:
+        if e["fate"] != "deliver":
+            continue
+        f = dp.parse(e["brty"], e["data"])
+        if f["code"] != "DEP" or f["kind"] not in ("INF", "I++"):
+            continue
+        buf[e["dir"]] += f["inf"]
+        if f["kind"] == "I++":
+            continue
+        raw, buf[e["dir"]] = buf[e["dir"]], b""
+        if len(raw) < 2:
+            continue
+
+        def head(b):
+            return (PTYPES.get((b[0] & 3) << 2 | b[1] >> 6, "?"),
+                    b[0] >> 2, b[1] & 63)
+        top = head(raw)
+        if top[0] != "AGF":
+            out.append((e["dir"], [top]))
+            continue
+        inner, pos = [], 2
+        while pos + 2 <= len(raw):
+            n = int.from_bytes(raw[pos:pos + 2], "big")
+            if n >= 2 and pos + 2 + n <= len(raw):
+                inner.append(head(raw[pos + 2:pos + 4]))
+            pos += 2 + n
+        out.append((e["dir"], inner))
+    return out
+
+
+def overlap_on_air(air_log):
+    """(frames, labels): what the aggregated frames on the air carried"""
+    frames = llc_frames(air_log)
+    labels = set()
+    for d, pdus in frames:
+        if len(pdus) < 2:
+            continue
+        names = [p[0] for p in pdus]
+        if any(n in SETUP for n in names):
+            labels.add("agf-carries-connect-or-cc")
+            for n in SETUP:
+                if names.count(n) >= 2:
+                    labels.add("agf-carries-two-" + n.lower())
+            if "CC" in names:
+                labels.add("agf-carries-cc")
+            if any(n in ("I", "RR", "RNR") for n in names):
+                labels.add("agf-carries-connect-or-cc-with-i-or-rr")
+        # a data link connection = (SAP on the initiator device, SAP on the
+        # target device)
+        conns = set((p[2], p[1]) if d == "I>T" else (p[1], p[2])
+                    for p in pdus if p[0] in DLC_PDUS)
+        if len(conns) >= 2:
+            labels.add("agf-carries-two-connections")
+    return frames, labels
+
+
+def run_concurrent(case, ctx):
+    opts = {}
+    for side in ("i", "t"):
+        opts[side] = {"miu": case["miu_" + side], "lto": case["lto_" + side],
+                      "agf": case["agf_" + side], "lri": case["lri"],
+                      "lrt": case["lrt"], "brs": case["brs"]}
+    P = p2p.Pair(case["choices"], seed=case["seed"], opts_i=opts["i"],
+                 opts_t=opts["t"])
+    services, clients = case["services"], case["clients"]
+    # what every client sends and what it is to get back
+    plan = []
+    for k, c in enumerate(clients):
+        todo = []
+        for j, op in enumerate(c["ops"]):
+            s = (case["seed"] + 16 * k + 5 * j + 1) & 0xFF
+            if op["op"] == "handover":
+                msg = hr_message(op["size"], s)
+                ans = b"".join(ndef.message_encoder(
+                    hs_records(op["rsize"], s)))
+            else:
+                msg = message(op["size"], s)
+                ans = message(op["rsize"], (s + 100) & 0xFF) \
+                    if op["op"] == "get" else None
+            todo.append((op["op"], msg, ans, op["gap"]))
+        plan.append(todo)
+    answers = [{} for _ in services]    # per service: request -> answer
+    for k, c in enumerate(clients):
+        for op, msg, ans, gap in plan[k]:
+            answers[c["svc"]][msg] = (op, ans)
+    seen = [[] for _ in services]       # (op, octets) at the application
+    raw = [[] for _ in services]        # raw request octets at the server
+    results = [[] for _ in clients]
+    errors = [None] * len(clients)
+    done = []
+    try:
+        def snep_server(n):
+            class Server(nfc.snep.SnepServer):
+                def process_snep_request(self, request_data):
+                    raw[n].append(bytes(request_data))
+                    return nfc.snep.SnepServer.process_snep_request(
+                        self, request_data)
+
+                def process_put_request(self, records):
+                    seen[n].append(
+                        ("put", b"".join(ndef.message_encoder(records))))
+                    return nfc.snep.Success
+
+                def process_get_request(self, records):
+                    req = b"".join(ndef.message_encoder(records))
+                    seen[n].append(("get", req))
+                    op, ans = answers[n].get(req, (None, None))
+                    if op != "get":
+                        return nfc.snep.NotFound
+                    return list(ndef.message_decoder(ans))
+            return Server
+
+        def ho_server(n):
+            class Server(nfc.handover.HandoverServer):
+                def _process_request_data(self, octets):
+                    raw[n].append(bytes(octets))
+                    return nfc.handover.HandoverServer._process_request_data(
+                        self, octets)
+
+                def process_handover_request_message(self, records):
+                    req = b"".join(ndef.message_encoder(records))
+                    seen[n].append(("handover", req))
+                    op, ans = answers[n].get(req, (None, None))
+                    if op != "handover":
+                        return [ndef.HandoverSelectRecord("1.2")]
+                    return list(ndef.message_decoder(ans))
+            return Server
+
+        def start_servers(side, llc):
+            for n, svc in enumerate(services):
+                if svc["side"] != side:
+                    continue
+                if svc["type"] == "handover":
+                    ho_server(n)(llc, recv_miu=svc["miu"],
+                                 recv_buf=svc["rw"]).start()
+                else:
+                    snep_server(n)(llc, SVC_NAME[svc["type"]],
+                                   recv_miu=svc["miu"],
+                                   recv_buf=svc["rw"]).start()
+
+        def client(k, llc):
+            c = clients[k]
+            svc = services[c["svc"]]
+            try:
+                if c["delay"]:
+                    P.sched.sleep(c["delay"] / 1000.0)
+                snep = None
+                for op, msg, ans, gap in plan[k]:
+                    if op == "handover":
+                        h = nfc.handover.HandoverClient(llc)
+                        h.connect(recv_miu=c["miu"], recv_buf=c["rw"])
+                        sent = h.send_octets(msg)
+                        got = h.recv_octets(timeout=5.0)
+                        h.close()
+                        results[k].append((sent, got))
+                    else:
+                        if snep is None:
+                            snep = nfc.snep.SnepClient(
+                                llc, max_ndef_msg_recv_size=100000)
+                            if c["explicit"]:
+                                snep.connect(SVC_NAME[svc["type"]])
+                        if op == "put":
+                            results[k].append(
+                                snep.put_octets(msg, timeout=5.0))
+                        else:
+                            r = snep.get_octets(msg, timeout=5.0)
+                            results[k].append(None if r is None else bytes(r))
+                    if gap:
+                        P.sched.sleep(gap / 1000.0)
+                if snep is not None and c["explicit"]:
+                    snep.close()
+            except nfc.snep.SnepError as e:
+                errors[k] = ("snep-error", e)
+            except nfc.llcp.Error as e:
+                errors[k] = ("llcp-error", e)
+            except Exception as e:
+                errors[k] = ("other", e)
+            finally:
+                done.append(k)
+
+        def on_connect(side):
+            def fn(llc):
+                start_servers(side, llc)
+                for k, c in enumerate(clients):
+                    if services[c["svc"]]["side"] != side:
+                        P.sched.spawn(lambda k=k: client(k, llc),
+                                      "client-%d" % k)
+            return fn
+        P.on_connect["i"] = on_connect("i")
+        P.on_connect["t"] = on_connect("t")
+        P.terminate[case["closer"]] = lambda: len(done) == len(clients)
+        P.start()
+        finished = P.sched.run_until(
+            lambda: "i" in P.result and "t" in P.result, 120.0)
+        failures = P.sched.failures()
+        blocked = [repr(t) for t in P.sched.blocked()]
+    finally:
+        P.close()
+    # ----------------------------------------------------------- verdicts
+    ctx.set_class("concurrent")
+    frames, marks = overlap_on_air(P.air.log)
+    shape = ["%s@%s<-%s" % (
+        services[c["svc"]]["type"], services[c["svc"]]["side"],
+        "+".join("%s:%d" % (o[0], len(o[1])) for o in plan[k]))
+        for k, c in enumerate(clients)]
+    agfs = [[p[0] for p in pdus] for d, pdus in frames if len(pdus) > 1]
+    where = "clients %r; aggregated frames on the air: %r" % (
+        shape, agfs[:6])
+    if P.exc:
+        side, e = sorted(P.exc.items())[0]
+        raise unexpected(e, "connect-raises")
+    for k, err in enumerate(errors):
+        if err is not None and err[0] == "other":
+            raise unexpected(err[1], "client-raises")
+    for name, e in failures:
+        raise unexpected(e, "thread-died:" + name)
+    if len(done) != len(clients):
+        raise Violation("client-never-finished",
+                        "clients done %r of %d, blocked: %r; %s" % (
+                            sorted(done), len(clients), blocked, where))
+    if not finished:
+        raise Violation("connect-did-not-return", "blocked: %r" % blocked)
+    for k, err in enumerate(errors):
+        if err is not None:
+            raise Violation("client-" + err[0], "client %d: %r; %s" % (
+                k, err[1], where))
+    for k, c in enumerate(clients):
+        want = [True if op == "put" else ans if op == "get" else (True, ans)
+                for op, msg, ans, gap in plan[k]]
+        if results[k] != want:
+            j = 0
+            while j < len(results[k]) and results[k][j] == want[j]:
+                j += 1
+            got = results[k][j] if j < len(results[k]) else "nothing"
+            if isinstance(got, tuple):
+                got = (got[0], None if got[1] is None else len(got[1]))
+            elif isinstance(got, bytes):
+                got = len(got)
+            raise Violation(
+                "%s-result-differs" % plan[k][j][0],
+                "client %d operation %d (%s of %d octets%s): got %r; %s" % (
+                    k, j, plan[k][j][0], len(plan[k][j][1]),
+                    "" if plan[k][j][2] is None
+                    else ", answer %d octets" % len(plan[k][j][2]),
+                    got, where))
+    for n, svc in enumerate(services):
+        want = sorted((op, msg) for k, c in enumerate(clients)
+                      if c["svc"] == n for op, msg, ans, gap in plan[k])
+        if sorted(seen[n]) != want:
+            raise Violation(
+                "not-delivered-once-intact-to-the-right-application",
+                "%s server on %s: sent to it %r, its application saw %r; %s"
+                % (svc["type"], svc["side"], [(o, len(m)) for o, m in want],
+                   [(o, len(m)) for o, m in sorted(seen[n])], where))
+        # raw request octets: SNEP header is 6 octets (put) / 10 octets (get)
+        got_raw = sorted(r if svc["type"] == "handover"
+                         else r[10 if r[1:2] == b"\x01" else 6:]
+                         for r in raw[n])
+        if got_raw != sorted(m for o, m in want):
+            raise Violation("raw-octets-differ", "%s server on %s: %r" % (
+                svc["type"], svc["side"], [len(r) for r in raw[n]]))
+    for m in sorted(marks):
+        ctx.label(m)
+    if "agf-carries-connect-or-cc" in marks or \
+            "agf-carries-two-connections" in marks:
+        ctx.nontrivial()
+    else:
+        ctx.label("no-two-connections-in-one-frame"
+                  if case["agf_i"] or case["agf_t"] else "aggregation-off")
+    ctx.label("clients:%d" % len(clients))
+    ctx.label("services:%d" % len(services))
+    if len(set(services[c["svc"]]["side"] for c in clients)) == 2:
+        ctx.label("clients-on-both-devices")
+    ctx.note({"clients": shape, "aggregated_frames": agfs[:8],
+              "frames_on_air": len(P.air.log),
+              "virtual_seconds": round(P.sched.now, 3)})
+
+
 def _leg(name, gen, q, t):
     return Leg(name, run=run, gen=lambda tier: gen, quick=q, thorough=t,
                shards_quick=6, shards_thorough=16, nt_floor=0.2,
@@ -770,6 +1136,26 @@ def _leg(name, gen, q, t):
 
 
 LEGS = [
+    Leg("concurrent", run=run_concurrent, gen=lambda tier: concurrent_case(),
+        quick=360, thorough=8000, shards_quick=6, shards_thorough=16,
+        nt_floor=0.3,
+        rule="concurrent services on one link: 1..4 servers spread over the "
+             "two devices (default SNEP server, a second SNEP server under "
+             "its own service name, handover server), 2..4 client threads on "
+             "the respective other device (at most two per server), each "
+             "starting 0..60 ms of virtual time after on-connect and doing "
+             "one or two operations (SNEP put / get on one explicit "
+             "connection or on implicit connections, handover request / "
+             "select on a connection each) with message sizes at k*MIU+-7, "
+             "k*128+-7 and random <= 1500; generated link configuration "
+             "with aggregation on in 3 of 4 cases per side, schedule choice "
+             "lists up to 40.  Every message must reach the application of "
+             "the server it was sent to exactly once and intact, every "
+             "client must get the right result (True / the server's answer / "
+             "the select message) and none may fail.  non-trivial = the LLC "
+             "frames read off the air contain an aggregated frame that "
+             "carries PDUs of two different data link connections, or a "
+             "CONNECT / CC PDU together with another PDU (labels agf-*)."),
     Leg("lag", run=run, gen=lambda tier: lag_case(), quick=600,
         thorough=12000, shards_quick=6, shards_thorough=16, nt_floor=0.2,
         rule="5..22 fragments each way through receive windows of 2..7 at "
